@@ -514,7 +514,7 @@ var extBoxedFinite = map[string]string{
 // runFINBoxed: sink S1 — float results of every function bound in the base environment.
 func runFINBoxed(c *Ctx, e *finEngine, r *Result, rule string, only map[string]bool) int {
 	n := 0
-	for _, f := range c.G.Boxed {
+	for _, f := range e.g.Boxed {
 		if only != nil && !only[shortFn(f)] {
 			continue
 		}
@@ -526,7 +526,7 @@ func runFINBoxed(c *Ctx, e *finEngine, r *Result, rule string, only map[string]b
 			n += e.checkReturns(c, r, rule, f, i)
 		}
 	}
-	for _, f := range c.G.BoxedExt {
+	for _, f := range e.g.BoxedExt {
 		if only != nil {
 			continue
 		}
